@@ -1,19 +1,21 @@
 //! qv: run scripts against the real quinn-proto and write traces
 //!
-//! qv run <scripts.ndjson> <out.ndjson> [--probe N] [--first-run K]
+//! qv run <scripts.ndjson> <outdir> --proj a,b,c [--probe N] [--first-run K] [--prefix P]
 use std::io::{BufRead, BufWriter, Write};
 
-use qv_core::script::Runner;
+use qv_core::{proj, script::Runner};
 
 fn main() {
     let args: Vec<String> = std::env::args().collect();
     match args.get(1).map(|s| s.as_str()) {
         Some("run") => {
             let inp = std::fs::File::open(&args[2]).expect("scripts file");
-            let out = std::fs::File::create(&args[3]).expect("out file");
-            let mut out = BufWriter::new(out);
+            let outdir = args[3].clone();
+            std::fs::create_dir_all(&outdir).unwrap();
             let mut probe = 1u8;
             let mut first = 0u64;
+            let mut projs: Vec<String> = vec!["master".into()];
+            let mut prefix = String::new();
             let mut i = 4;
             while i < args.len() {
                 match args[i].as_str() {
@@ -25,10 +27,26 @@ fn main() {
                         first = args[i + 1].parse().unwrap();
                         i += 1;
                     }
+                    "--proj" => {
+                        projs = args[i + 1].split(',').map(|s| s.to_string()).collect();
+                        i += 1;
+                    }
+                    "--prefix" => {
+                        prefix = args[i + 1].clone();
+                        i += 1;
+                    }
                     _ => {}
                 }
                 i += 1;
             }
+            let mut outs: Vec<BufWriter<std::fs::File>> = projs
+                .iter()
+                .map(|p| {
+                    BufWriter::new(
+                        std::fs::File::create(format!("{outdir}/{prefix}{p}.ndjson")).unwrap(),
+                    )
+                })
+                .collect();
             std::panic::set_hook(Box::new(|_| {}));
             let mut run = first;
             for line in std::io::BufReader::new(inp).lines() {
@@ -38,14 +56,16 @@ fn main() {
                 }
                 let script: serde_json::Value = serde_json::from_str(&line).expect("script json");
                 let trace = Runner::run_script(&script, run, probe);
-                for l in &trace {
-                    writeln!(out, "{}", l).unwrap();
+                for (p, o) in projs.iter().zip(outs.iter_mut()) {
+                    for l in proj::project(p, &trace) {
+                        writeln!(o, "{}", l).unwrap();
+                    }
                 }
                 run += 1;
             }
         }
         _ => {
-            eprintln!("usage: qv run <scripts.ndjson> <out.ndjson> [--probe N] [--first-run K]");
+            eprintln!("usage: qv run <scripts.ndjson> <outdir> --proj a,b [--probe N] [--first-run K]");
             std::process::exit(2);
         }
     }
